@@ -4,6 +4,7 @@ import argparse
 import faulthandler
 import importlib
 import json
+import signal
 import os
 import sys
 import time
@@ -41,7 +42,19 @@ class Workload(object):
         return int((self.quick if tier == 'quick' else self.thorough) * scale)
 
 
+class CaseTimeout(BaseException):
+    pass
+
+
+def _on_alarm(signum, frame):
+    raise CaseTimeout()
+
+
+CASE_TIMEOUT = float(os.environ.get('VERIF_CASE_TIMEOUT', '150'))
+
+
 def main(argv=None):
+    signal.signal(signal.SIGALRM, _on_alarm)
     ap = argparse.ArgumentParser()
     ap.add_argument('--prop', required=True)
     ap.add_argument('--tier', default='quick')
@@ -107,10 +120,24 @@ def main(argv=None):
             probe.clear_live()
             tc = time.time()
             try:
-                if params is not None:
-                    wl.fn(ctx, rng, idx, params[idx])
-                else:
-                    wl.fn(ctx, rng, idx)
+                # watchdog per case (a wall-clock limit is never a verdict: a case that runs into it is counted and makes the run
+                # inconclusive unless a violation was observed elsewhere; without it one diverging computation - e.g. a propagator
+                # fed with an exploding state - would stall the whole shard and hide what the other cases show)
+                signal.setitimer(signal.ITIMER_REAL, CASE_TIMEOUT, 5.0)  # (repeats: the library has bare except clauses that could swallow one firing)
+                try:
+                    if params is not None:
+                        wl.fn(ctx, rng, idx, params[idx])
+                    else:
+                        wl.fn(ctx, rng, idx)
+                finally:
+                    signal.setitimer(signal.ITIMER_REAL, 0)
+            except CaseTimeout:
+                probe.S.busy = 0
+                probe.S.depth = 0
+                del probe.S.targets[:]
+                del probe.S.apis[:]
+                ctx.events['case_timeout'] += 1
+                ctx.events['case_timeout:' + wl.name] += 1
             except Exception:
                 probe.S.busy = 0
                 probe.S.depth = 0
